@@ -221,14 +221,23 @@ def print_assumptions(props_file):
 
 def pins_ok(props_file, pins):
     """`pins` maps theorem name -> a normalised substring that must occur in its statement in
-    the Props file, so that a statement cannot be quietly weakened"""
+    the Props file, so that a statement cannot be quietly weakened.  In addition, when
+    checks/pins/<Cxx>.json exists (written by tools/mkpins.py), every recorded statement must be
+    present unchanged."""
     src = strip_coq_comments(open(os.path.join(COQ, props_file), encoding="utf-8").read())
     flat = re.sub(r"\s+", " ", src)
+    cur = {}
+    for m in re.finditer(r"(?:Theorem|Example|Corollary|Lemma)\s+(\w+)\s*:(.*?)\.\s*Proof\.", flat):
+        cur[m.group(1)] = m.group(2).strip()
     missing = []
-    for name, frag in pins.items():
-        m = re.search(r"(?:Theorem|Example)\s+" + re.escape(name) + r"\s*:(.*?)\.\s*Proof\.", flat)
-        if not m or re.sub(r"\s+", " ", frag).strip() not in m.group(1):
+    for name, frag in (pins or {}).items():
+        if name not in cur or re.sub(r"\s+", " ", frag).strip() not in cur[name]:
             missing.append(name)
+    pinfile = os.path.join(VERIF, "checks", "pins", os.path.basename(props_file)[:-2] + ".json")
+    if os.path.exists(pinfile):
+        for name, stmt in json.load(open(pinfile)).items():
+            if cur.get(name) != stmt and name not in missing:
+                missing.append(name)
     return missing
 
 
@@ -412,7 +421,9 @@ def finish(o: Outcome, level="proof"):
     for what, replay in o.violations:
         k = match_known(o.prop, what, replay)
         if k is not None:
-            lines.append(f"KNOWN-FINDING: property={o.prop} {k.get('what', what)}")
+            line = f"KNOWN-FINDING: property={o.prop} {k.get('what', what)}"
+            if line not in lines:
+                lines.append(line)
         else:
             real.append((what, replay))
     # one VIOLATION line per distinct kind of failure (first replay of each)
@@ -517,7 +528,7 @@ def proof_side(o: Outcome, props_file, pins=None, extra_files=()):
             extra = [a for a in ax if a not in ALLOWED_AXIOMS]
             if extra:
                 o.obligation_broken(f"Print Assumptions {name}", "unexpected axioms: " + ", ".join(extra))
-    if pins:
+    if True:
         miss = pins_ok(props_file, pins)
         if miss:
             o.obligation_broken("statement pins", "statement changed or missing: " + ", ".join(miss))
